@@ -25,15 +25,16 @@ class Lemma:
 
 class Unit:
     def __init__(self, name, fns, spec="", prelude=("prelude.rs",), lemmas=(), global_rules=(), generated=None, tier="quick", model="S",
-                 trusted=(), assumptions=()):
+                 trusted=(), assumptions=(), props=()):
         self.name, self.fns, self.spec, self.prelude, self.lemmas = name, list(fns), spec, list(prelude), list(lemmas)
         self.global_rules = list(global_rules)
         self.generated = generated        # callable(repo, log) -> (text, [Lemma]) : text generated from /repo (e.g. drop glue from field order)
         self.tier, self.model = tier, model
         self.trusted, self.assumptions = list(trusted), list(assumptions)
+        self.extra_props = list(props)       # properties served by obligations that only exist once `generated` ran
 
     def props(self):
-        s = set()
+        s = set(self.extra_props)
         for f in self.fns:
             s.update(f.props)
         for l in self.lemmas:
